@@ -732,12 +732,20 @@ func runC07(c *fw.Case) {
 		if rng.Intn(3) > 0 {
 			continue
 		}
-		desc := "Eval(\"res\", <" + b.name + ">)"
+		// destination: a new name, the (unknown) name the expression refers to, or an existing column
+		dst := "res"
+		switch rng.Intn(4) {
+		case 0:
+			dst = "no-such-col"
+		case 1:
+			dst = sh.Cols[rng.Intn(len(sh.Cols))].Name
+		}
+		desc := fmt.Sprintf("Eval(%q, <%s>)", dst, b.name)
 		exprs = append(exprs, desc)
 		c.Eval(1)
 		c.Nontrivial("invalid", b.name, idKey(sh.IDs()))
 		var res qframe.QFrame
-		if !c.GuardFail("eval-invalid:"+b.name, desc, func() { res = root.QF.Eval("res", b.expr(), eval.EvalContext(ctx)) }) {
+		if !c.GuardFail("eval-invalid:"+b.name, desc, func() { res = root.QF.Eval(dst, b.expr(), eval.EvalContext(ctx)) }) {
 			continue
 		}
 		c.Count("invalid_expressions", 1)
@@ -745,6 +753,15 @@ func runC07(c *fw.Case) {
 			c.Fail("accepts-invalid:"+b.name, "%s returned no Err (columns %q)", desc, res.ColumnNames())
 		} else if res.Len() != -1 {
 			c.Fail("errlen", "%s has Err but Len()=%d", desc, res.Len())
+		}
+		// a failed Eval leaves the frame it was applied to as it was
+		c.Eval(1)
+		if got, oerr := model.ObserveGuard(root.QF); oerr != nil {
+			c.Fail("receiver-after-failed-eval", "after %s the receiver cannot be observed: %v", desc, oerr)
+			return
+		} else if d := model.Diff(sh, got); d != "" {
+			c.Fail("receiver-after-failed-eval", "after %s the receiver changed: %s", desc, d)
+			return
 		}
 	}
 }
